@@ -10,6 +10,7 @@ import (
 	"net/http"
 
 	"github.com/openebs/jiva/controller/rest"
+	"github.com/openebs/jiva/util"
 )
 
 // E-http-client for the controller REST client the replica-side code uses (register,
@@ -86,7 +87,8 @@ func zzDecode(d *json.Decoder, v interface{}) error {
 		if !zzNoVolume {
 			vol := rest.Volume{Name: "vol", ReplicaCount: 2}
 			vol.Actions = map[string]string{"start": zzCtl + "/volumes/dm9s?action=start", "deleteSnapshot": zzCtl + "/volumes/dm9s?action=deleteSnapshot",
-				"snapshot": zzCtl + "/volumes/dm9s?action=snapshot", "revert": zzCtl + "/volumes/dm9s?action=revert"}
+				"snapshot": zzCtl + "/volumes/dm9s?action=snapshot", "revert": zzCtl + "/volumes/dm9s?action=revert",
+				"setlogging": zzCtl + "/volumes/dm9s?action=setlogging"}
 			out.Data = []rest.Volume{vol}
 		}
 	case **rest.Replica:
@@ -94,7 +96,13 @@ func zzDecode(d *json.Decoder, v interface{}) error {
 		rep.Actions = map[string]string{"verifyrebuild": zzCtl + "/replicas/x?action=verifyrebuild", "preparerebuild": zzCtl + "/replicas/x?action=preparerebuild"}
 		*out = rep
 	case *rest.ReplicaCollection:
-		out.Data = []rest.Replica{{Address: "tcp://h1:9502", Mode: "RW"}, {Address: "tcp://h2:9502", Mode: "WO"}}
+		r1 := rest.Replica{Address: "tcp://h1:9502", Mode: "RW"}
+		r1.Links = map[string]string{"self": zzCtl + "/replicas/aDE="}
+		r2 := rest.Replica{Address: "tcp://h2:9502", Mode: "WO"}
+		r2.Links = map[string]string{"self": zzCtl + "/replicas/aDI="}
+		out.Data = []rest.Replica{r1, r2}
+	case *rest.SnapshotOutput:
+		out.Id = "snap-id-1"
 	case *rest.Checkpoint:
 		out.Snapshot = zzCheckpoint
 	}
@@ -111,7 +119,7 @@ func ZZ_Env_ControllerClient() {
 	c := &ControllerClient{controller: zzCtl}
 	doOK := zzDoOutcome == 1 || zzDoOutcome == 4
 	getOK := !zzGetFails && !zzDecodeFails
-	call := zzConcretize(zzChoice("call", 9))
+	call := zzConcretize(zzChoice("call", 17))
 	switch call {
 	case 0:
 		err := c.Register("h1", "uuid-1", zzNondetInt64("rev"), "Backend", 0, "closed")
@@ -164,6 +172,71 @@ func ZZ_Env_ControllerClient() {
 		zzAssert((err == nil) == ok, "env.cclient.deletesnapshot-error-status-wrong")
 		if getOK && !zzNoVolume {
 			zzAssert(len(zzRequests) == 1 && zzRequests[0].method == "DELETE" && zzRequests[0].url == zzCtl+"/volumes/dm9s?action=deleteSnapshot", "env.cclient.deletesnapshot-wrong-request")
+		}
+	case 8:
+		_, err := c.RevertVolume("s1")
+		ok := getOK && !zzNoVolume && doOK
+		zzAssert((err == nil) == ok, "env.cclient.revertvolume-error-status-wrong")
+		if getOK && !zzNoVolume {
+			in, isIn := zzRequests[0].payload.(*rest.RevertInput)
+			zzAssert(len(zzRequests) == 1 && zzRequests[0].method == "POST" && zzRequests[0].url == zzCtl+"/volumes/dm9s?action=revert" && isIn && in.Name == "s1", "env.cclient.revertvolume-wrong-request")
+		}
+	case 9:
+		err := c.RevertSnapshot("s1")
+		ok := getOK && !zzNoVolume && doOK
+		zzAssert((err == nil) == ok, "env.cclient.revertsnapshot-error-status-wrong")
+		if getOK && !zzNoVolume {
+			in, isIn := zzRequests[0].payload.(rest.RevertInput)
+			zzAssert(len(zzRequests) == 1 && zzRequests[0].method == "POST" && zzRequests[0].url == zzCtl+"/volumes/dm9s?action=revert" && isIn && in.Name == "s1", "env.cclient.revertsnapshot-wrong-request")
+		} else {
+			zzAssert(len(zzRequests) == 0, "env.cclient.revertsnapshot-posted-without-a-volume")
+		}
+	case 10:
+		id, err := c.Snapshot("s1")
+		ok := getOK && !zzNoVolume && doOK
+		zzAssert((err == nil) == ok, "env.cclient.snapshot-error-status-wrong")
+		if err == nil {
+			zzAssert(id == "snap-id-1", "env.cclient.snapshot-returns-other-id")
+		} else {
+			zzAssert(id == "", "env.cclient.failed-snapshot-returns-an-id")
+		}
+		if getOK && !zzNoVolume {
+			in, isIn := zzRequests[0].payload.(*rest.SnapshotInput)
+			zzAssert(len(zzRequests) == 1 && zzRequests[0].method == "POST" && zzRequests[0].url == zzCtl+"/volumes/dm9s?action=snapshot" && isIn && in.Name == "s1", "env.cclient.snapshot-wrong-request")
+		}
+	case 11:
+		_, err := c.CreateQuorumReplica("tcp://h4:9502")
+		zzAssert((err == nil) == (doOK && !zzDecodeFails), "env.cclient.createquorum-error-status-wrong")
+		in, isIn := zzRequests[0].payload.(*rest.Replica)
+		zzAssert(len(zzRequests) == 1 && zzRequests[0].method == "POST" && zzRequests[0].url == zzCtl+"/quorumreplicas" && isIn && in.Address == "tcp://h4:9502", "env.cclient.createquorum-wrong-request")
+	case 12:
+		rep, err := c.DeleteReplica("tcp://h2:9502")
+		zzAssert((err == nil) == (getOK && doOK), "env.cclient.deletereplica-error-status-wrong")
+		if getOK {
+			zzAssert(len(zzRequests) == 1 && zzRequests[0].method == "DELETE" && zzRequests[0].url == zzCtl+"/replicas/aDI=", "env.cclient.deletereplica-wrong-request")
+		} else {
+			zzAssert(len(zzRequests) == 0, "env.cclient.deletereplica-sent-after-failed-listing")
+		}
+		if err == nil {
+			zzAssert(rep != nil && rep.Address == "tcp://h2:9502", "env.cclient.deletereplica-returns-another-replica")
+		}
+	case 13:
+		rep, err := c.DeleteReplica("tcp://h9:9502") // not a member: nothing is deleted
+		zzAssert(len(zzRequests) == 0, "env.cclient.deletereplica-of-a-stranger-sent-a-request")
+		zzAssert(rep == nil && (err == nil) == getOK, "env.cclient.deletereplica-of-a-stranger-wrong-result")
+	case 14:
+		in := rest.Replica{Address: "tcp://h2:9502", Mode: "ERR"}
+		in.Links = map[string]string{"self": zzCtl + "/replicas/aDI="}
+		_, err := c.UpdateReplica(in)
+		zzAssert((err == nil) == (doOK && !zzDecodeFails), "env.cclient.updatereplica-error-status-wrong")
+		sent, isIn := zzRequests[0].payload.(*rest.Replica)
+		zzAssert(len(zzRequests) == 1 && zzRequests[0].method == "PUT" && zzRequests[0].url == zzCtl+"/replicas/aDI=" && isIn && sent.Mode == "ERR" && sent.Address == "tcp://h2:9502", "env.cclient.updatereplica-wrong-request")
+	case 15:
+		err := c.SetLogging(util.LogToFile{Enable: true})
+		ok := getOK && !zzNoVolume && doOK
+		zzAssert((err == nil) == ok, "env.cclient.setlogging-error-status-wrong")
+		if getOK && !zzNoVolume {
+			zzAssert(len(zzRequests) == 1 && zzRequests[0].url == zzCtl+"/volumes/dm9s?action=setlogging", "env.cclient.setlogging-wrong-request")
 		}
 	default:
 		v, err := c.GetVolume()
